@@ -214,8 +214,8 @@ __R4TEXT__""")
                   "unchanged tree, repaired: string comparison helpers moving their operands, `and` / `or` on non-bools and `for` over a number accepted, "
                   "`run(port=…)` rewritten on user classes, `__eq__` parameter names, keyword-named imports, fixture and directory order, `**` on an "
                   "integer variable, blanks inside f-string interpolations.\n")
-    r4text += ("\nAfter round 4 every stored seed was applied once more to the final checks (`git apply`, `./check`, undo): 157 of 160 are "
-               "reported; C03-5 is the superseded one (above); C03-4 no longer applies (a later `fix:` rewrote the function it edits). Three "
+    r4text += ("\nAfter round 4 every stored seed was applied once more to the final checks (`git apply`, `./check`, undo): 158 of 160 are "
+               "reported (C03-4 after being re-ported onto the current tree: later fixes had moved its context); C03-5 is the superseded one (above). Three "
                "seeds that had been caught earlier were missed in this sweep — C10-4, C11-4 and C18-5 had been caught by whatever the seeded "
                "random streams happened to draw, and later additions to the generators shifted those draws. The inputs they need are now "
                "produced deterministically: a cut after every line that ends in `return` / `pass` / `break` / `continue` / `...` (C10), "
